@@ -25,6 +25,7 @@ type vfC19Case struct {
 	Server      string `json:"server"` // finishes | cancel_early | cancel_late | keeps_sending | quiet
 	Reactive    bool   `json:"reactive"` // the server prints a prompt when it receives the cancel sequence
 	CtrlCMs     int    `json:"ctrlc_ms"` // -1: none
+	WaitS       int    `json:"wait_s,omitempty"` // how long to wait for the end event (default 8 s; the inactivity timers need 20 s and more)
 }
 
 type vfC19Res struct {
@@ -141,6 +142,21 @@ func vfC19Run(cs vfC19Case, res *vfC19Res) string {
 			if waitHello(1500 * time.Millisecond) {
 				srvOut([]byte("**\x18B0800000000022d\r\x8a"))
 			}
+		case "finishes_twice":
+			// the goodbye arrives (in a short read of its own) once the helper runs, is repeated, a prompt follows, then silence
+			d := time.Now().Add(1500 * time.Millisecond)
+			for time.Now().Before(d) {
+				if b, _ := os.ReadFile(logFile); bytes.Contains(b, []byte("started")) {
+					break
+				}
+				time.Sleep(5 * time.Millisecond)
+			}
+			time.Sleep(60 * time.Millisecond)
+			srvOut([]byte("**\x18B0800000000022d\r\x8a"))
+			time.Sleep(80 * time.Millisecond)
+			srvOut([]byte("**\x18B0800000000022d\r\x8a"))
+			time.Sleep(80 * time.Millisecond)
+			srvOut([]byte("OO"))
 		case "cancel_early":
 			time.Sleep(20 * time.Millisecond)
 			mu.Lock()
@@ -197,7 +213,11 @@ func vfC19Run(cs vfC19Case, res *vfC19Res) string {
 	// wait for an end event: one of the messages the session prints, or the remote cancel before the helper started
 	endMsgs := []string{"Stopped", "client exit with", "Success!!", "client failed", "timeout", "No such", "Cancelled"}
 	var endAt time.Time
-	deadline := time.Now().Add(8 * time.Second)
+	wait := 8 * time.Second
+	if cs.WaitS > 0 {
+		wait = time.Duration(cs.WaitS) * time.Second
+	}
+	deadline := time.Now().Add(wait)
 	for time.Now().Before(deadline) && endAt.IsZero() {
 		out := sess.termOut.bytes()[termBase:]
 		for _, m := range endMsgs {
@@ -221,7 +241,7 @@ func vfC19Run(cs vfC19Case, res *vfC19Res) string {
 		res.started = true
 	}
 	if endAt.IsZero() {
-		return fmt.Sprintf("no end event within 8 s (helper=%s server=%s ctrl-c=%d): terminal shows %s", cs.Helper, cs.Server, cs.CtrlCMs, vfShort(sess.termOut.bytes()[termBase:], 200))
+		return fmt.Sprintf("no end event within %v (helper=%s server=%s ctrl-c=%d): terminal shows %s", wait, cs.Helper, cs.Server, cs.CtrlCMs, vfShort(sess.termOut.bytes()[termBase:], 200))
 	}
 	// helper started iff the header stood alone (and nothing ended the session before it could start)
 	earlyEnd := cs.Server == "cancel_early" || (cs.CtrlCMs >= 0 && cs.CtrlCMs < 300) // the helper is launched 100-150 ms after the header
@@ -339,4 +359,65 @@ func TestVF_C19(t *testing.T) {
 		c.eval(cs, cs.HeaderNoise != "" || res.endEvent != "", labels...)
 		return msg
 	})
+}
+
+// TestVF_C19Timeouts: nothing ends these sessions - the helper stays silent (or lingers), the remote side goes quiet, nobody presses
+// Ctrl-C - except the session's own inactivity timers (20 s). The terminal must still come back: an end message within 20 s plus
+// slack, the cancel sequence to the waiting side, pass-through afterwards.
+func TestVF_C19Timeouts(t *testing.T) {
+	c := vfNewCollector("C19", "TestVF_C19Timeouts")
+	defer vfFlushAll()
+	for _, f := range vfCaseFilesFor(c.Test) {
+		var cs vfC19Case
+		if err := jsonUnmarshal(f.Case, &cs); err != nil {
+			t.Errorf("bad case file %s: %v", f.Path, err)
+			continue
+		}
+		var res vfC19Res
+		msg := vfGuardTimed(c, cs, func() string { return vfC19Run(cs, &res) })
+		c.eval(cs, true, "inactivity_timeout")
+		if msg != "" {
+			c.violation("regress:"+filepath.Base(f.Path), cs, msg)
+			t.Errorf("case file %s fails: %s", f.Path, msg)
+		}
+	}
+	if vfReplayOnly() || t.Failed() {
+		return
+	}
+	shard, shards := vfShard()
+	job := 0
+	for _, upload := range []bool{false, true} {
+		for _, helper := range []string{"silent", "mute_linger"} {
+			for _, server := range []string{"quiet", "finishes_twice"} {
+				for _, reactive := range []bool{false, true} {
+					job++
+					if job%shards != shard {
+						continue
+					}
+					cs := vfC19Case{Upload: upload, Helper: helper, Server: server, Reactive: reactive, CtrlCMs: -1, WaitS: 27}
+					var res vfC19Res
+					msg := vfGuardTimed(c, cs, func() string { return vfC19Run(cs, &res) })
+					if msg != "" {
+						// a timing verdict must reproduce
+						var res2 vfC19Res
+						if m2 := vfGuardTimed(c, cs, func() string { return vfC19Run(cs, &res2) }); m2 == "" {
+							c.inconclusive("timing_not_reproduced")
+							msg = ""
+						}
+					}
+					labels := []string{"inactivity_timeout", "helper_" + helper, "server_" + server, "end_" + strings.ReplaceAll(res.endEvent, " ", "_")}
+					if upload {
+						labels = append(labels, "upload")
+					} else {
+						labels = append(labels, "download")
+					}
+					c.eval(cs, res.endEvent != "", labels...)
+					if msg != "" {
+						c.violation("enumerated", cs, msg)
+						t.Errorf("%+v: %s", cs, msg)
+					}
+				}
+			}
+		}
+	}
 }
